@@ -2,7 +2,7 @@
 
 package core
 
-//@ spec func chainsOK(c ref) bool = c != nil && (forall i int, j int :: 0 <= i && i < len(c.CertificateChainList) && 0 <= j && j < len(c.CertificateChainList[i].CertificateChainEntryList) ==> c.CertificateChainList[i].CertificateChainEntryList[j].Certificate != nil && c.CertificateChainList[i].CertificateChainEntryList[j].Certificate.SerialNumber != nil && c.CertificateChainList[i].CertificateChainEntryList[j].RawCertificate != nil)
+//@ spec func chainsOK(c ref) bool = c != nil && (forall a int, b int :: {elem(elem(c.CertificateChainList, a).CertificateChainEntryList, b)} offset(c.CertificateChainList) <= a && a < offset(c.CertificateChainList) + len(c.CertificateChainList) && offset(elem(c.CertificateChainList, a).CertificateChainEntryList) <= b && b < offset(elem(c.CertificateChainList, a).CertificateChainEntryList) + len(elem(c.CertificateChainList, a).CertificateChainEntryList) ==> elem(elem(c.CertificateChainList, a).CertificateChainEntryList, b).Certificate != nil && elem(elem(c.CertificateChainList, a).CertificateChainEntryList, b).Certificate.SerialNumber != nil && elem(elem(c.CertificateChainList, a).CertificateChainEntryList, b).RawCertificate != nil)
 
 //@ func CertificateChains.AddCertificateChain
 //@   props C07
